@@ -8,7 +8,7 @@ CONSTANTS
   MaxEnv = 3
   ForeignAt = "none"
   RenderFails = FALSE
-  FailKinds = {"fnerror1", "fnerror2", "fatal1", "fatal2", "reqloop1", "reqloop2"}
+  FailKinds = {"fnerror1", "fnerror2", "fatal1", "fatal2", "reqloop1", "reqloop2", "reqlabel1", "reqlabel2"}
 VIEW view
 ACTION_CONSTRAINT Emit
 CHECK_DEADLOCK FALSE
